@@ -21,7 +21,10 @@ META24 = ["rulelist", "rule", "rulename", "defined-as", "elements", "c-wsp", "c-
           "repetition", "repeat", "element", "group", "option", "char-val", "num-val", "bin-val", "dec-val", "hex-val", "prose-val",
           "case-insensitive-string", "case-sensitive-string", "quoted-string"]
 SYMS = ["A", "1", "*", "/", "(", ")", "[", "]", '"', "%", "x", "-", ".", ";", " ", "\r\n", "<", ">", "=", "b"]
-BREAK = ['"', "%", "(", ")", "[", "]", "=", "/", "\r", "\n", "<", ">", "*", ";", "\x7f", "\x00", "é", "-", ".", " ", "\t", "g", "G", "2", "s", "i"]
+BREAK = ['"', "%", "(", ")", "[", "]", "=", "/", "\r", "\n", "<", ">", "*", ";", "\x7f", "\x00", "é", "-", ".", " ", "\t", "g", "G", "2", "s", "i",
+         # characters that LOOK like the ASCII ones a rule wants to Unicode-aware tools (str.isdigit / isalpha, \\d, \\w, \\s): decimal digits and
+         # letters outside ASCII, other spaces and line separators
+         "\u0663", "\uff11", "\U0001d7d7", "\u00b2", "\u0430", "\uff21", "\u00a0", "\u2028", "\x85", "\x0b", "\x0c", "_"]
 
 
 def mutate(rng, s):
